@@ -209,6 +209,14 @@ def lit_sites(ops):
     return out
 
 
+def type_change_visible(ops, site, sib):
+    """anonymous literal nodes are named after their value, so equal values written at several places share ONE node: replacing
+    the value at `site` by `sib` must change the configuration when the old value occurs nowhere else (its node disappears)
+    or the new one occurs nowhere yet (a node appears); otherwise the two histories may legitimately build the same graph"""
+    vals = [json.dumps(v, sort_keys=True) for _, _, v in lit_sites(ops)]
+    return vals.count(json.dumps(site[2], sort_keys=True)) == 1 or json.dumps(sib, sort_keys=True) not in vals
+
+
 def with_lit(ops, site, value):
     i, where, _ = site
     ops = [dict(o) for o in ops]
@@ -508,10 +516,10 @@ def gen_graph(rng, malformed=False):
         case["ops2"] = ops2
         # the same history with ONE literal replaced by an equal-looking value of another type
         import c13_lit
-        sites = [st for st in lit_sites(ops2) if c13_lit.siblings(st[2])]
+        sites = [st for st in lit_sites(ops2) if any(type_change_visible(ops2, st, sb) for sb in c13_lit.siblings(st[2]))]
         if sites:
             st = rng.choice(sites)
-            sib = rng.choice(c13_lit.siblings(st[2]))
+            sib = rng.choice([sb for sb in c13_lit.siblings(st[2]) if type_change_visible(ops2, st, sb)])
             case["ops3"] = with_lit(ops2, st, sib)
             case["ops3_change"] = [st[2], sib]
             case["ops3_site"] = st[0]
@@ -1242,7 +1250,9 @@ def oracle(case, obs):
         site = case.get("ops3_site")
         # (only when the operation that writes the literal succeeded both times: a call that is refused - e.g. wiring an
         #  input through an alias - fails before it creates the literal node)
-        site_ok = site is not None and "ops2" in o and "ops3" in o and o["ops2"][site]["err"] == 0 and o["ops3"][site] == 0
+        site_ok = site is not None and "ops2" in o and "ops3" in o and o["ops2"][site]["err"] == 0 and o["ops3"][site] == 0 \
+            and any(st[0] == site and json.dumps(st[2], sort_keys=True) == json.dumps(case["ops3_change"][0], sort_keys=True)
+                    and type_change_visible(case["ops2"], st, case["ops3_change"][1]) for st in lit_sites(case["ops2"]))
         if b3 is not None and site_ok and not b3.get("err") and b3["hash"] == b["hash"]:
             frm, to = case.get("ops3_change", [None, None])
             bad("hash-insensitive-to-literal-type", f"replacing the literal {json.dumps(frm)} by {json.dumps(to)} did not change the configuration hash"
